@@ -48,6 +48,41 @@ func TypeIDL(t *Type) string {
 	panic("TypeIDL")
 }
 
+// typedefIDL: like TypeIDL, base types named through the typedefs declared by Render.
+func typedefIDL(t *Type) string {
+	switch t.K {
+	case BOOL:
+		return "TBool"
+	case BYTE:
+		return "TByte"
+	case I16:
+		return "TI16"
+	case I32:
+		if t.Enum != "" {
+			return t.Enum
+		}
+		return "TI32"
+	case I64:
+		return "TI64"
+	case DOUBLE:
+		return "TDouble"
+	case STRING:
+		if t.Bin {
+			return "TBinary"
+		}
+		return "TString"
+	case STRUCT:
+		return t.Ref
+	case LIST:
+		return "list<" + typedefIDL(t.Elem) + ">"
+	case SET:
+		return "set<" + typedefIDL(t.Elem) + ">"
+	case MAP:
+		return "map<" + typedefIDL(t.Key) + "," + typedefIDL(t.Elem) + ">"
+	}
+	panic("typedefIDL")
+}
+
 func constIDL(v *Value) string {
 	switch v.K {
 	case BOOL:
@@ -82,6 +117,9 @@ func (u *Universe) Render() string {
 			}
 		}
 	}
+	if u.Typedefs {
+		b.WriteString("typedef bool TBool\ntypedef byte TByte\ntypedef i16 TI16\ntypedef i32 TI32\ntypedef i64 TI64\ntypedef double TDouble\ntypedef string TString\ntypedef binary TBinary\n\n")
+	}
 	for _, s := range u.Structs {
 		fmt.Fprintf(&b, "struct %s {\n", s.Name)
 		for _, f := range s.Fields {
@@ -92,7 +130,11 @@ func (u *Universe) Render() string {
 			case ReqOptional:
 				req = "optional "
 			}
-			fmt.Fprintf(&b, "  %d: %s%s %s", f.ID, req, TypeIDL(f.T), f.Name)
+			tn := TypeIDL(f.T)
+			if u.Typedefs && f.ID%2 != 0 {
+				tn = typedefIDL(f.T)
+			}
+			fmt.Fprintf(&b, "  %d: %s%s %s", f.ID, req, tn, f.Name)
 			if f.Default != nil && f.DefaultRef != "" {
 				fmt.Fprintf(&b, " = %s", f.DefaultRef)
 			} else if f.Default != nil {
@@ -116,12 +158,44 @@ func (u *Universe) Render() string {
 	if argID == 0 {
 		argID = 1
 	}
-	fmt.Fprintf(&b, "service Svc {\n  %s Call(%d: %s req)\n", TypeIDL(u.Root), argID, TypeIDL(u.Root))
-	for i, x := range u.Extra {
-		fmt.Fprintf(&b, "  %s M%d(1: %s req)\n", TypeIDL(x), i, TypeIDL(x))
+	q := func(t *Type) string { return TypeIDL(t) }
+	if u.Split {
+		q = func(t *Type) string { return qualifiedIDL(t, "inc.") }
 	}
-	b.WriteString("}\n")
+	var sv strings.Builder
+	fmt.Fprintf(&sv, "service Svc {\n  %s Call(%d: %s req)\n", q(u.Root), argID, q(u.Root))
+	for i, x := range u.Extra {
+		fmt.Fprintf(&sv, "  %s M%d(1: %s req)\n", q(x), i, q(x))
+	}
+	sv.WriteString("}\n")
+	if u.Split {
+		// main file first, then the included one behind a marker line (Compile splits them again)
+		return "namespace go verif\ninclude \"inc.thrift\"\n\n" + sv.String() + SplitMarker + strings.Replace(b.String(), "namespace go verif", "namespace go inc", 1)
+	}
+	b.WriteString(sv.String())
 	return b.String()
+}
+
+// SplitMarker separates main.thrift from inc.thrift in the text Render returns for a split universe.
+const SplitMarker = "\n// ---- inc.thrift ----\n"
+
+// qualifiedIDL: like TypeIDL, struct and enum names prefixed (types declared in an included file).
+func qualifiedIDL(t *Type, prefix string) string {
+	switch t.K {
+	case I32:
+		if t.Enum != "" {
+			return prefix + t.Enum
+		}
+	case STRUCT:
+		return prefix + t.Ref
+	case LIST:
+		return "list<" + qualifiedIDL(t.Elem, prefix) + ">"
+	case SET:
+		return "set<" + qualifiedIDL(t.Elem, prefix) + ">"
+	case MAP:
+		return "map<" + qualifiedIDL(t.Key, prefix) + "," + qualifiedIDL(t.Elem, prefix) + ">"
+	}
+	return TypeIDL(t)
 }
 
 // Compiled holds dynamicgo descriptors parsed from a rendered universe.
@@ -150,7 +224,12 @@ func Compile(idl string, opts thrift.Options) (*Compiled, error) {
 		return c, nil
 	}
 	tcMu.Unlock()
-	svc, err := opts.NewDescritorFromContent(context.Background(), "main.thrift", idl, nil, false)
+	var includes map[string]string
+	mainText := idl
+	if i := strings.Index(idl, SplitMarker); i >= 0 {
+		mainText, includes = idl[:i], map[string]string{"inc.thrift": idl[i+len(SplitMarker):]}
+	}
+	svc, err := opts.NewDescritorFromContent(context.Background(), "main.thrift", mainText, includes, true)
 	if err != nil {
 		return nil, err
 	}
